@@ -78,7 +78,8 @@ RULE = (
     'every threshold, parameters given as Numeric / float / free / fixed / free-with-override Beta or created by the helper (betas=None); Box-Cox: l around +-1e-5 and 0, '
     'exponent as Variable / free / fixed Beta / Numeric / float, x at 1, next to 1, near 0; densities with non-standard parameters (mode off-centre and next to an end point, '
     'x <= 0 for the lognormal, end points for the uniform), parameters also as data variables; argument-check stream; segmentations with 1-3 variables, reference coded by several '
-    'values, negative codes, no non-reference category, class and function entry points; nested structures. '
+    'values, negative codes, no non-reference category, class and function entry points; nested structures with the labels of the nests varied (unique, equal, equal to a default label, unnamed, inherited through object re-use), '
+    'mu as number / free / fixed Beta / formula / through the parameters argument, 0, 1, >= 2 alone alternatives. '
     'non-trivial = piecewise case with a non-zero first threshold or an open end, Box-Cox case with |l| within 2e-5 of the switch, density with '
     'non-default parameters, segmentation with >= 1 non-reference category hit, correlation with >= 1 nest of >= 2 alternatives'
 )
@@ -1079,57 +1080,102 @@ def check_seg(ctx, res, case, use_model=True):
 # --------------------------------------------------------------------------- nested correlation
 
 
+CORR_KINDS = ['number', 'beta', 'beta_override', 'fixed', 'expr', 'expr_override']
+CORR_NAMES = ['unique', 'unique', 'same', 'default_clash', 'unnamed', 'unnamed', 'reused']
+
+
 def gen_corr_case(rng):
+    """nests = membership + mu; everything else is an input dimension the matrix must NOT depend on: the labels of the nests (unique,
+    the same label twice, an explicit label equal to the default label 'nest_<position>' of an unnamed nest, unnamed, an unnamed nest
+    object that already went through another specification and kept the label it was given there), the way mu is given (number, free /
+    fixed Beta, formula, value through the `parameters` argument away from the initial value), alone alternatives (0, 1, >= 2)"""
     n = rng.randint(2, 7)
     cs = rng.sample([1, 2, 3, 4, 5, 7, 10, 11, 20], n)
     pool = list(cs)
     rng.shuffle(pool)
     nests = []
-    while pool and len(nests) < 3 and rng.random() < 0.85:
-        size = min(len(pool), rng.choice([1, 2, 2, 3, 4]))
-        alts = [pool.pop() for _ in range(size)]
-        nests.append({'mu': rng.choice([rng.uniform(1.0, 5.0), 1.0, 2.0, 1.5]), 'alts': alts, 'as_beta': rng.random() < 0.4,
-                      'override': rng.random() < 0.5})
+    want_alone = rng.choice([0, 0, 1, 2, None])
+    while pool and len(nests) < 4 and (rng.random() < 0.85 if want_alone is None else len(pool) > want_alone):
+        size = min(len(pool) - (want_alone or 0), rng.choice([1, 2, 2, 3, 4]))
+        alts = [pool.pop() for _ in range(max(size, 1))]
+        kind = rng.choice(CORR_KINDS)
+        nests.append({'mu': rng.choice([rng.uniform(1.0, 5.0), 1.0, 2.0, 1.5, 1.25]), 'alts': alts, 'kind': kind,
+                      'name_mode': rng.choice(CORR_NAMES), 'reuse_pos': rng.randint(1, 4)})
+    # labels: 'default_clash' takes the default label of another position
+    for i, nd in enumerate(nests):
+        m = nd['name_mode']
+        nd['name'] = {'unique': f'n{i}', 'same': 'shared', 'default_clash': f'nest_{rng.randint(1, max(len(nests), 1))}'}.get(m)
     mu = rng.choice([1.0, 1.0, 1.0, rng.uniform(0.5, 1.0)])
-    return {'kind': 'corr', 'choice_set': cs, 'nests': nests, 'mu': mu, 'named': rng.random() < 0.3, 'old_syntax': rng.random() < 0.4}
+    return {'kind': 'corr', 'choice_set': cs, 'nests': nests, 'mu': mu, 'named': rng.random() < 0.3, 'old_syntax': rng.random() < 0.25}
+
+
+def corr_kind(n):
+    if 'kind' in n:
+        return n['kind']
+    return ('beta_override' if n.get('override') else 'beta') if n.get('as_beta') else 'number'      # cases stored before round 4
 
 
 def run_corr_real(case):
-    from biogeme.expressions import Beta
+    from biogeme.expressions import Beta, Numeric
     from biogeme.nests import NestsForNestedLogit, OneNestForNestedLogit
 
     objs = []
     params = {}
     for i, n in enumerate(case['nests']):
-        if n['as_beta']:
-            if n['override']:
-                p = Beta(f'mu_{i}', 1.0 + i, 1, 10, 0)
-                params[f'mu_{i}'] = n['mu']
-            else:
-                p = Beta(f'mu_{i}', n['mu'], 1, 10, 0)
+        kind, v = corr_kind(n), n['mu']
+        if kind == 'number':
+            p = v
+        elif kind == 'beta':
+            p = Beta(f'mu_{i}', v, 1, 10, 0)
+        elif kind == 'beta_override':
+            p = Beta(f'mu_{i}', 1.0 + i, 1, 10, 0)
+            params[f'mu_{i}'] = v
+        elif kind == 'fixed':
+            p = Beta(f'mu_{i}', v, 1, 10, 1)
+        elif kind == 'expr':
+            p = Beta(f'mu_{i}', v / 2, None, None, 0) * Numeric(2)        # exact: scaling by a power of two
         else:
-            p = n['mu']
-        if not case.get('old_syntax'):
-            objs.append(OneNestForNestedLogit(nest_param=p, list_of_alternatives=list(n['alts']), name=f'n{i}'))
-        else:
+            p = Numeric(2) * Beta(f'mu_{i}', 3.0 + i, None, None, 0)
+            params[f'mu_{i}'] = v / 2
+        if case.get('old_syntax'):
             objs.append((p, list(n['alts'])))
+            continue
+        mode = n.get('name_mode', 'unique')
+        name = n.get('name', f'n{i}') if mode in ('unique', 'same', 'default_clash') else None
+        o = OneNestForNestedLogit(nest_param=p, list_of_alternatives=list(n['alts']), name=name)
+        if mode == 'reused':
+            # the same (unnamed) nest object first goes through another specification, at position `reuse_pos`
+            fillers = [OneNestForNestedLogit(nest_param=1.0, list_of_alternatives=[], name=None) for _ in range(n.get('reuse_pos', 1) - 1)]
+            NestsForNestedLogit(choice_set=list(case['choice_set']), tuple_of_nests=tuple(fillers + [o]))
+        objs.append(o)
     nn = NestsForNestedLogit(choice_set=list(case['choice_set']), tuple_of_nests=tuple(objs))
     names = {a: f'alt{a}' for a in case['choice_set']} if case['named'] else None
     kw = {} if case['mu'] == 1.0 else {'mu': case['mu']}
     df = nn.correlation(parameters=params or None, alternatives_names=names, **kw)
-    return [[float(v) for v in r] for r in df.values.tolist()]
+    labels = [getattr(m, 'name', None) for m in nn.tuple_of_nests]
+    return [[float(v) for v in r] for r in df.values.tolist()], labels
 
 
 def check_corr(ctx, res, case, use_model=True):
     where = 'nests.NestsForNestedLogit.correlation'
     try:
-        mat = run_corr_real(case)
+        mat, labels = run_corr_real(case)
     except Exception as e:  # noqa: BLE001
         res.violate(f'correlation raises {type(e).__name__}: {e}', case, core.exc_kind(e), 'matrix', where=where)
         return
     cs = case['choice_set']
     res.count({'corr': case}, nontrivial=any(len(n['alts']) >= 2 for n in case['nests']))
     res.tally(f'corr:n={len(cs)}')
+    n_alone = len(set(cs) - {a for n in case['nests'] for a in n['alts']})
+    res.tally(f'corr:alone={min(n_alone, 2)}{"+" if n_alone >= 2 else ""}')
+    if len(set(labels)) < len(labels):
+        mus = {}
+        for lab, n in zip(labels, case['nests']):
+            mus.setdefault(lab, set()).add(n['mu'])
+        res.tally('corr:two nests with the same label' + (' and different mu' if any(len(v) > 1 for v in mus.values()) else ''))
+    for n in case['nests']:
+        res.tally(f'corr:mu as {corr_kind(n)}')
+        res.tally(f'corr:label {n.get("name_mode", "unique") if not case.get("old_syntax") else "tuple syntax"}')
     nest_of = {a: n for n in case['nests'] for a in n['alts']}
     for p, i in enumerate(cs):
         for q, j in enumerate(cs):
